@@ -197,8 +197,12 @@ int main(int argc, char **argv) {
     __sanitizer_set_death_callback(drv_sanitizer_death);
 #endif
     reg("reset", h_reset);
+#ifdef DRV_EXTRA_ONLY
+    reg_extra();
+#else
     reg_perm(); reg_sponge(); reg_aead(); reg_mac(); reg_kdf(); reg_isap(); reg_prng();
     reg_masked(); reg_cpp(); reg_misc();
+#endif
 
     char *line = 0; size_t cap = 0; ssize_t len;
     while ((len = getline(&line, &cap, in)) > 0) {
